@@ -121,3 +121,21 @@ fn d31_child_with_64bit_header_in_sample_entry() {
     assert_eq!((out.width, out.height), (16, 16));
     assert_eq!(c.position(), total as u64);
 }
+
+/// D-42: MoovBox neither sizes nor writes its mvex child: a movie box read from a fragmented file loses it when re-encoded
+#[test]
+fn d42_moov_drops_mvex() {
+    let mut moov = MoovBox::default();
+    let mut mvex = MvexBox::default();
+    mvex.trex.track_id = 1;
+    mvex.trex.default_sample_duration = 1024;
+    moov.mvex = Some(mvex);
+    let mut v = Vec::new();
+    let n = moov.write_box(&mut v).unwrap();
+    assert_eq!(n as usize, v.len());
+    assert_eq!(moov.box_size() as usize, v.len());
+    let mut c = Cursor::new(v);
+    let h = BoxHeader::read(&mut c).unwrap();
+    let out = MoovBox::read_box(&mut c, h.size).unwrap();
+    assert_eq!(out.mvex, moov.mvex);
+}
